@@ -61,6 +61,7 @@ fn alphabet(property: &str) -> (Idx, Vec<Op>) {
             Op::Update(1, 7),
             Op::Update(1, 14),
             Op::Update(1, 15),
+            Op::Update(1, 16),
             Op::Update(2, 8),
             Op::Update(2, 1),
             Op::UpdateUnknown(1),
@@ -90,7 +91,16 @@ struct Res {
 }
 
 /// Runs one history; returns problems found.
-fn run_history(start_idx: Idx, hist: &[Op], probe: bool) -> Res {
+/// Start states: empty, and two flushed documents sharing a non-unique key
+/// (so that a single remove / update leaves a still-shared posting in a clean bucket).
+fn prelude(kind: u8) -> Vec<Op> {
+    match kind {
+        0 => vec![],
+        _ => vec![Op::Add(0), Op::Add(1), Op::Flush],
+    }
+}
+
+fn run_history(start_idx: Idx, pre: &[Op], hist: &[Op], probe: bool) -> Res {
     anda_db_utils::verif::set_clock(Some((1_700_000_000_000, 1)));
     anda_db_utils::verif::set_random_seed(Some(7));
     let store = Arc::new(object_store::memory::InMemory::new());
@@ -110,6 +120,14 @@ fn run_history(start_idx: Idx, hist: &[Op], probe: bool) -> Res {
             }
         };
         let mut model = SeqModel::default();
+        for op in pre {
+            let out = fx.exec_any(op).await;
+            if !out.is_ok() {
+                res.problems.push(("prelude".into(), format!("prelude op {op:?} failed: {}", out.short())));
+                return;
+            }
+            model.apply(op, &out);
+        }
         for (i, op) in hist.iter().enumerate() {
             // index-dependent ops on an index that is not there are skipped by construction
             if matches!(op, Op::CompactBm25) && !fx.idx.body {
@@ -193,12 +211,13 @@ fn main() {
     if let Some(file) = run.replay_file.clone() {
         let v: serde_json::Value = serde_json::from_slice(&std::fs::read(&file).expect("read")).expect("json");
         let hist: Vec<Op> = serde_json::from_value(v["replay"]["history"].clone()).expect("history");
-        let r = run_history(idx, &hist, true);
+        let start = v["replay"]["start"].as_u64().unwrap_or(0) as u8;
+        let r = run_history(idx, &prelude(start), &hist, true);
         for (sig, msg) in r.problems {
             run.violation(Violation {
                 signature: format!("{property}|hist|{sig}"),
-                summary: format!("history {hist:?}: {msg}"),
-                replay: json!({"history": hist}),
+                summary: format!("start {start} history {hist:?}: {msg}"),
+                replay: json!({"history": hist, "start": start}),
             });
         }
         run.add("evaluations", 1);
@@ -209,7 +228,14 @@ fn main() {
     let max_depth = run.tier.pick(3, 5);
     let threads = util::n_threads();
     let mut completed_depth = 0;
+    let starts: Vec<u8> = vec![0, 1];
     for depth in 1..=max_depth {
+      for &start in &starts {
+        // the preloaded start is explored one level less deep than the empty one
+        if start == 1 && depth == max_depth && max_depth > 2 {
+            continue;
+        }
+        let pre = prelude(start);
         // all histories of exactly this depth (prefixes were covered at smaller depths)
         let total = (ops.len() as u64).pow(depth as u32);
         // estimate: stop before starting a level that cannot finish (measured rate)
@@ -243,7 +269,7 @@ fn main() {
                     x /= ops_ref.len() as u64;
                 }
                 hist.reverse();
-                let r = run_history(idx, &hist, true);
+                let r = run_history(idx, &pre, &hist, true);
                 agg.0 += 1;
                 agg.1 += r.steps;
                 agg.2 += r.compares;
@@ -275,8 +301,8 @@ fn main() {
                 for (sig, msg) in r.problems {
                     run.violation(Violation {
                         signature: format!("{property}|hist|{sig}"),
-                        summary: format!("history {hist:?}: {msg}"),
-                        replay: json!({"history": hist}),
+                        summary: format!("start {start} history {hist:?}: {msg}"),
+                        replay: json!({"history": hist, "start": start}),
                     });
                 }
             }
@@ -285,7 +311,10 @@ fn main() {
             run.cap_hit(&format!("time budget hit inside depth {depth}: {level_execs}/{total} histories"));
             break;
         }
-        completed_depth = depth;
+        if start == 0 {
+            completed_depth = depth;
+        }
+      }
         if run.violation_count() > 0 {
             break; // shortest counterexamples first
         }
@@ -297,7 +326,7 @@ fn main() {
     run.set("completed_depth", json!(completed_depth));
     run.set("alphabet", json!(ops.iter().map(|o| format!("{o:?}")).collect::<Vec<_>>()));
     run.rule(&format!(
-        "every history of length 1..={completed_depth} over the {}-operation alphabet (accepted and rejected writes, flush, compaction, clean reopen, index create+backfill/removal through the open callback) executed on a fresh database; states = distinct final (documents, index set) model states; a history is non-trivial when it ran to the end",
+        "every history of length 1..={completed_depth} from the empty collection, and one level less from a start state with two flushed documents sharing a non-unique key, over the {}-operation alphabet (accepted and rejected writes, flush, compaction, clean reopen, index create+backfill/removal through the open callback) executed on a fresh database; states = distinct final (documents, index set) model states; a history is non-trivial when it ran to the end",
         ops.len()
     ));
     run.assume("sequential histories on one handle; documents from 6 templates, 14 update templates");
